@@ -21,8 +21,8 @@ CLAIMED = {
    note="Bounded in table shape (<= 3x3 quick, 4x4 + 2x8 thorough) and BMC depth; hash stubbed as uninterpreted columns (exact: the kernels use it only modulo width); wrapper glue (update/ngram/save/load) is decided under C12/C10."),
  "C02": dict(engine=K, category="model_checking", design="6 C02",
    technique="symbolic execution of Numba typed IR + z3 (QF_ABV): kernel == specification from an arbitrary register state (z3 Array, symbolic precision), algebraic laws on the kernel terms",
-   text="_n_leading_zeros64 == clz for all 2^64 inputs; _add == the documented register update for symbolic p in 7..16, all hashes, seeds and register states; _merge == element-wise max (m=128 quick, to 512 thorough); adds commute/idempotent and merge/add commute on the kernels. Each lemma is an exact functional specification from an arbitrary state, so 'state = fold over distinct keys' follows by induction (prose). Counterexamples are replayed as real add/merge histories with crafted 8-byte keys (FastHash64 is invertible on one block).",
-   note="_merge beyond m=512 rests on loop uniformity; hash stubbed as an arbitrary 64-bit value per key; wrappers under C12/C15."),
+   text="_n_leading_zeros64 == clz for all 2^64 inputs; _add == the documented register update for symbolic p in 7..16, all hashes, seeds and register states; _merge == element-wise max (m=128 quick, to 512 thorough); adds commute/idempotent and merge/add commute on the kernels. Each lemma is an exact functional specification from an arbitrary state, so 'state = fold over distinct keys' follows by induction (prose). Counterexamples are replayed as real add/merge histories with crafted 8-byte keys (FastHash64 is invertible on one block). The property names the hash: the real fasthash64 kernel == FastHash64 reference for every key length 0..32 (0..129 thorough), all bytes and seeds, counterexamples replayed as HyperLogLog.add vs a python FastHash/clz oracle.",
+   note="_merge beyond m=512 rests on loop uniformity; hash stubbed as an arbitrary 64-bit value per key in the register lemmas and decided separately per key length; wrappers under C12/C15."),
  "C05": dict(engine=K, category="model_checking", design="6 C05",
    technique="symbolic execution of Numba typed IR + z3 (QF_BV; QF_FPBV with uninterpreted pow for _log_counter): one add step from an arbitrary table, callee-contract decomposition for the log kernels",
    text="One step of the real add kernels from an arbitrary table with all cells, both keys' columns and the multiplicity symbolic: every clause of C05 for linear (all uint32 v) and for log16/log8 (all uint64 v, symbolic num_reserved) with _log_counter summarised by a contract that is itself proved against the real _log_counter (loop body with symbolic counter/num_reserved/base, plus configuration-concrete end-to-end unrollings). Counterexamples are replayed through the public API with the table and draws installed.",
@@ -48,9 +48,9 @@ CLAIMED = {
    note="Convergence of the Newton iteration and the exact set of configurations rejected by the constructor are outside the claim (numeric iteration through **); plumbing counterexamples are replayed on the real constructors, which must either raise ValueError or decode the ceiling to max_count."),
 
  "C17": dict(engine=K, category="model_checking", design="6 C17",
-   technique="symbolic execution of Numba typed IR + z3 (real-idealised: LRA/NRA + uninterpreted log/pow/interp, math-mode integers): result term == reference decision tree",
-   text="For all register arrays (m = 16 and 128 cells quick, 512 thorough; every cell symbolic), thresholds and alpha, the value returned by the real _query (with _linear_counting and _estimation_function inlined) equals the documented HLL++ decision tree built over the same uninterpreted log / 2**x / interp; the empty sketch gives exactly 0; every leaf is shown reachable. A structural counterexample is reported only after register arrays reproducing a numeric disagreement with an independent numpy rendering are found on real sketches (p in 7..16, one sketch reused per precision). Shipped-table facts are concrete data checks reported in the evidence.",
-   note="Floats idealised as reals (summation order immaterial); accuracy of np.log/np.interp/** outside the claim; table-row selection and alpha in __init__ are decided by the engine-W part."),
+   technique="symbolic execution of Numba typed IR + z3 (real-idealised: LRA/NRA, uninterpreted log/pow, np.interp as an uninterpreted function of (x, tables) with its definition instantiated on demand, symbolic 3-knot tables, math-mode integers): result term == reference decision tree; shipped tables as solver constants",
+   text="For all register arrays (m = 16 and 128 cells quick, 512 thorough; every cell symbolic), thresholds and alpha, the value returned by the real _query (with _linear_counting and _estimation_function inlined) equals the documented HLL++ decision tree built over the same uninterpreted log / 2**x / interp; the empty sketch gives exactly 0; every leaf is shown reachable. A structural counterexample is reported only after register arrays reproducing a numeric disagreement with an independent numpy rendering are found on real sketches (p in 7..16, one sketch reused per precision). Shipped-table facts are concrete data checks reported in the evidence. The (raw estimate, bias) tables are symbolic 3-knot functional arrays passed to the kernel; swapped tables or a hand-written interpolation that differs from np.interp (e.g. outside the table) are counterexamples. Shipped tables: every raw-estimate row strictly increasing, first knot corrects to the threshold (1%).",
+   note="Floats idealised as reals (summation order immaterial); accuracy of np.log/np.interp/** outside the claim; table-row selection and alpha in __init__ are decided by the engine-W part. The numeric content of the shipped bias table is data the property takes as given."),
  "C12": dict(engine=K + " + " + W, category="model_checking", design="6 C12",
    technique="symbolic execution of Numba typed IR + z3 (call-trace equality for the ngram kernels, two-run state equality for multiplicity); CrossHair (z3) over the Python entry points with shimmed numpy/numba",
    text="All five _add_ngram* kernels: for key lengths 0..8 (12 thorough) with symbolic bytes and every ngram >= 1 (n < len concretely, n >= len symbolically up to 2^64-1) the inner adds recorded are exactly the sliding windows / the whole key, with multiplicity 1, on the sketch's own arrays and with the random pointer threaded through. Multiplicity: add(k,v+1) == add(k,v);add(k,1) from an arbitrary state for linear and heavy hitters (v symbolic); for log sketches add(k,2) == add(k,1);add(k,1) via a composition lemma on the real _log_counter (real-idealised) plus the add kernels with _log_counter abstracted. update()/update_ngram()/__getitem__/HyperLogLog ignoring values: CrossHair harnesses over the real methods.",
@@ -79,17 +79,17 @@ CLAIMED = {
    text="Real _fill_queue, _worker, _merge_worker, parallel_merging, parallel_add: for 1..3 workers (4 thorough; parallel_merging alone 1..9) and every assignment of the items to workers (symbolic), symbolic callback returns, and all three sketch kinds together: every item reaches the callback exactly once, its adds land in the assigned worker's block, every worker's block of every kind is merged exactly once into the returned sketch (odd carry included), n_records is the sum of returns, one pill per worker. With the merge lemmas of C01/C02/C03/C04/C09 this gives the sequential result. The 'items may be a generator' clause is a recorded known finding (F2).",
    note="Assumes mp.Queue's exactly-once delivery and that the fake context's scheduling covers the real one's observable orders; OS scheduling, real spawn and cross-process memory coherence are outside (the replays do run real spawned processes)."),
  "C19": dict(engine=W, category="model_checking", design="6 C19",
-   technique="CrossHair symbolic execution (z3) of the real _worker loop and parallel_add monitor under the synchronous context with symbolic per-item failure flags and a symbolic exit code",
-   text="Per item a symbolic flag (callback fine / raises before touching the sketches / raises after updating them, incl. exceptions without arguments): parallel_add still terminates, every item is offered once, all non-failing items' contributions are in the result and n_records counts only successful items. A worker with any non-zero exit status (-15..255, symbolic) makes parallel_add end with an exception instead of returning. Counterexamples replayed with real spawned processes (raising callbacks; a worker that os._exit()s / kills itself).",
-   note="Real signals, OOM kills and wall-clock hang detection are outside; the dead-worker guarantee in the pinned code is incidental (a later put on a closed queue raises) and is accepted as 'terminates with an exception'."),
+   technique="CrossHair symbolic execution (z3) of the real _worker loop and parallel_add monitor under the synchronous context with symbolic per-item failure flags and a symbolic exit code; symbolic per-worker delay before an exit status becomes observable; bounded work queue with a blocked-filler (hang) model",
+   text="Per item a symbolic flag (callback fine / raises before touching the sketches / raises after updating them, incl. exceptions without arguments): parallel_add still terminates, every item is offered once, all non-failing items' contributions are in the result and n_records counts only successful items. A worker with any non-zero exit status (-15..255, symbolic) makes parallel_add end with an exception instead of returning. Counterexamples replayed with real spawned processes (raising callbacks; a worker that os._exit()s / kills itself). Late death: each worker's exit status becomes observable only at the parent's v_i-th look (v_i symbolic 0..2), still an exception. Backlog: with the queue's capacity 3*n_workers modelled, a dead consumer while the filler still has more to put must end in an exception, not in a join() that never returns (modelled hang); replayed on the real library under a process-group watchdog.",
+   note="Real signals, OOM kills and scheduling beyond the modelled delay/backlog parameters are outside; the dead-worker guarantee in the pinned code is incidental (a later put on a closed queue raises) and is accepted as 'terminates with an exception'."),
 
  "C14": dict(engine=K, category="model_checking", design="6 C14 and 7",
-   technique="symbolic execution of Numba typed IR + z3: seed-term distinctness over a symbolic width in every placing kernel; satisfiability witnesses over the real FastHash (QF_BV, precise multiplication)",
-   text="REDUCED CLAIM: the exp(-depth) bound itself is a statement about FastHash's output distribution and is not decided. Decided necessary conditions: (1) in all eight placing kernels (count-min query/add for the three counter types, heavy hitters _add/_max_count) at depth 8 the column of row r is fasthash64(key, s_r) % width with the seed terms pairwise distinct for every width (symbolic) -- e.g. seeding every row identically or mixing the width into the seed is caught; (2) on the real fasthash64 with precise 64-bit multiplication the solver exhibits, for row pairs and widths, 8-byte keys that collide in one row but not the other (unsat would mean functionally dependent rows).",
-   note="Not a statistical independence result. A hash defect that only affects long keys (e.g. a truncated length) is caught by C11, not here."),
+   technique="symbolic execution of Numba typed IR + z3: seed-term distinctness over a symbolic width in every placing kernel; satisfiability witnesses (separating key pairs, joint coverage of column pairs) over the real placement kernels with the real FastHash inlined (QF_BV, precise multiplication); byte-sensitivity with uninterpreted multiplication",
+   text="REDUCED CLAIM: the exp(-depth) bound itself is a statement about FastHash's output distribution and is not decided. Decided necessary conditions: (1) in all eight placing kernels (count-min query/add for the three counter types, heavy hitters _add/_max_count) at depth 8 the column of row r is fasthash64(key, s_r) % width with the seed terms pairwise distinct for every width (symbolic) -- e.g. seeding every row identically or mixing the width into the seed is caught; (2) on the real fasthash64 with precise 64-bit multiplication the solver exhibits, for row pairs and widths, 8-byte keys that collide in one row but not the other (unsat would mean functionally dependent rows). (3) every byte of keys of the listed lengths (1..17, 24, 31..33, 63..65, 127..129, 255..257, 264) influences the hash; (4) every pair (column in row a, column in row b) at widths 8/13/16 is owned by some key; conditions (2) and (4) run the real placement kernels and read the columns from `buckets`.",
+   note="Not a statistical independence result: necessary conditions only."),
  "C06": dict(engine=K + " + " + W, category="model_checking", design="6 C06",
    technique="symbolic execution of Numba typed IR + z3 (QF_BV with callee contract; QF_FPBV lemma on _log_counter; NRA real-idealised lemmas with instantiated pow laws; functional arrays for _rand); CrossHair for the class glue",
-   text="Lower bound min(true, num_reserved+1) as an inductive invariant through _add_log16/_add_log8 (all v, symbolic num_reserved, arbitrary tables, _log_counter by contract) and through merges (idealised); _log_counter's contract incl. 'increment iff draw < base**-(c-num_reserved)', one draw per probabilistic step, none in the reserved range (IEEE mode, symbolic counter/num_reserved/base); _counter2value == documented formula and one-step unbiasedness P(advance)*delta == 1 (exact real arithmetic); _rand returns batch[ptr], ptr+1 below 2048 and replaces the whole 2048-entry batch with fresh draws at 2048 (functional array, symbolic pointer); ngram kernels and add()/add_ngram() thread the pointer (no draw reused).",
+   text="Lower bound min(true, num_reserved+1) as an inductive invariant through _add_log16/_add_log8 (all v, symbolic num_reserved, arbitrary tables, _log_counter by contract) and through merges (idealised); _log_counter's contract incl. 'increment iff draw < base**-(c-num_reserved)', one draw per probabilistic step, none in the reserved range (IEEE mode, symbolic counter/num_reserved/base); _counter2value == documented formula and one-step unbiasedness P(advance)*delta == 1 (exact real arithmetic); _rand returns batch[ptr], ptr+1 below 2048 and replaces the whole 2048-entry batch with fresh draws at 2048 (functional array, symbolic pointer); ngram kernels and add()/add_ngram() thread the pointer (no draw reused). Multiplicities up to 2^41 (a narrowed kernel parameter is a counterexample, replayed with the model's multiplicity under a time limit); _rand with slice updates as array lambdas: after a refill every slot holds a fresh draw.",
    note="Not decided: agreement with the exact Markov-chain distribution, quality of numpy's generator, float rounding of base**x; 'probability of draw < t is t' is the one probabilistic axiom."),
 }
 NA = {}
